@@ -158,6 +158,60 @@ func evalC14FailingRow(b *Bundle, r *Runner) []*Violation {
 	return nil
 }
 
+// genC14CallsInJoinOn: ASYNC calls made from the ON of a join - of the inner join of a three-table join as well, which
+// is built on a copy of the query: whoever builds the join, the calls belong to the query and are complete when its
+// Exec returns. (The slot such a call leaves in the ON expression is no value - the recorded known finding of C12 - so
+// only completion is decided here, never the rows.)
+func genC14CallsInJoinOn(t *rapid.T) *Bundle {
+	n := rapid.IntRange(1, 4).Draw(t, "nrows")
+	rows, keys := []any{}, []any{}
+	for i := 0; i < n; i++ {
+		rows = append(rows, map[string]any{"id": float64(i + 1), "a": float64(i * 10)})
+		keys = append(keys, map[string]any{"id": float64(i + 1)})
+	}
+	jt := rapid.SampledFrom([]string{"JOIN", "LEFT JOIN", "STRAIGHT_JOIN", "PARALLEL JOIN"}).Draw(t, "cjo_jt")
+	q := fmt.Sprintf(rapid.SampledFrom([]string{
+		"SELECT x.id AS id FROM t x %s k y ON x.id <= y.id AND ASYNC.fx(1, x.id) IS NOT NULL",
+		"SELECT x.id AS id FROM t x %s k y ON x.id <= y.id AND ASYNC.fx(1, x.id) IS NOT NULL JOIN k z ON y.id = z.id",
+		"SELECT z.id AS id FROM k z JOIN (t x %s k y ON x.id <= y.id AND ASYNC.fx(1, y.id) IS NOT NULL) ON y.id = z.id",
+		"SELECT x.id AS id FROM t x %s k y ON x.id <= y.id AND AWAIT(ASYNC.fx(1, x.id)) IS NOT NULL JOIN k z ON y.id = z.id",
+	}).Draw(t, "cjo_shape"), jt)
+	exp := c14Expect{Place: "calls_in_join_on", Sites: []c14Site{{ID: 1, Kind: "async"}}}
+	c := oneClientCase("C14", drawSim(t, ""), map[string]any{"t": rows, "k": keys}, casefmt.Op{Doc: 0, Vars: -1, Query: q})
+	c.Stubs.Lat = drawLatencies(t, []int{1}, n*n)
+	return &Bundle{Prop: "C14", Kind: "calls_in_join_on", Case: c, Expect: mustJSON(exp), Tags: []string{"place:calls_in_join_on"}}
+}
+
+func evalC14CallsInJoinOn(b *Bundle, r *Runner) []*Violation {
+	o := r.Run(&b.Case, false)
+	if vs := processHealth(b, o); len(vs) > 0 {
+		return vs
+	}
+	op := &o.Ops[0]
+	if !op.Returned || failed(op) {
+		// (a grammar the engine refuses is no statement about completion)
+		r.Stats.probe("calls_in_join_on_query_refused")
+		return nil
+	}
+	late, made := 0, 0
+	for _, c := range o.Calls {
+		if c.ID != 1 {
+			continue
+		}
+		made++
+		if c.SeqEnd == 0 || c.SeqEnd > op.SeqReturn {
+			late++
+		}
+	}
+	if late > 0 {
+		return []*Violation{mkViolation(b, "INCOMPLETE_AT_RETURN", "join_on", fmt.Sprintf("%s: %d of the %d ASYNC call(s) made from ON had not completed when Exec returned", b.Case.Clients[0].Ops[0].Query, late, made), o)}
+	}
+	if made > 0 {
+		r.Stats.probe("calls_in_join_on_checked")
+	}
+	return nil
+}
+
 func genC14Differential(t *rapid.T) *Bundle {
 	n := rapid.IntRange(0, 6).Draw(t, "nrows")
 	rows := []any{}
@@ -513,6 +567,8 @@ func genC14(t *rapid.T) *Bundle {
 		return genC14Differential(t)
 	case 13, 14:
 		return genC14FailingRow(t)
+	case 15:
+		return genC14CallsInJoinOn(t)
 	}
 	nrows := rapid.IntRange(0, 6).Draw(t, "nrows")
 	place := rapid.SampledFrom([]string{"top", "derived_star", "cte", "subquery", "derived_cols", "subquery_in_derived", "subquery_in_cte", "union_branch", "exists", "cte_chain", "grid"}).Draw(t, "place")
@@ -830,6 +886,9 @@ func evalC14(b *Bundle, r *Runner) []*Violation {
 	}
 	if exp.Place == "failing_row" {
 		return evalC14FailingRow(b, r)
+	}
+	if exp.Place == "calls_in_join_on" {
+		return evalC14CallsInJoinOn(b, r)
 	}
 	o := r.Run(&b.Case, false)
 	vs := processHealth(b, o)
